@@ -407,7 +407,6 @@ func oddBranchLeaf(v ssa.Value) string {
 	return fmt.Sprintf("%s (%T)", valName(v), v)
 }
 
-
 // pathDependsOnField: like dependsOnFieldLoad, reading parameters of inlined helpers as the
 // arguments the path binds them to.
 func pathDependsOnField(p *pathInfo, v ssa.Value, fld string) bool {
